@@ -1,0 +1,16 @@
+//go:build verif
+
+package rp
+
+import "context"
+
+// SimYield, when set, is called at scheduling points of the remote key set.
+// It only exists in builds with the verif tag and is used by the deterministic
+// simulation harness to decide the interleaving of goroutines.
+var SimYield func(ctx context.Context, point string)
+
+func simYield(ctx context.Context, point string) {
+	if f := SimYield; f != nil {
+		f(ctx, point)
+	}
+}
